@@ -70,6 +70,8 @@ type subResult struct {
 	Runs       []subOut `json:"runs"`
 	// the configuration setup rejected, handed to plugins.LoadPlugins (what the server does at start-up): accepted there?
 	LoadAccepted bool `json:"load_accepted"`
+	// server_id: the same request answered differently after later, rejected set-up calls
+	ReconfigChanged string `json:"reconfig_changed"`
 }
 
 func init() {
@@ -293,5 +295,57 @@ func plugsubMain() {
 			}
 		}
 		res.Runs = append(res.Runs, o)
+	}
+	// server_id: a later set-up call that is REJECTED (what a failed reload amounts to) must leave the
+	// identifier of the instance that is serving untouched: the first answered request is run again
+	if spec.Name == "server_id" && !hung {
+		var rejected [][]string
+		if spec.Proto == 6 {
+			rejected = [][]string{{"uuid", "00:11:22:33:44:55"}, {"en", "0a:0b:0c:0d:0e:0f"}, {"bogus", "02:02:02:02:02:02"}}
+		} else {
+			rejected = [][]string{{"not-an-address"}, {"2001:db8::9"}, {}}
+		}
+		for _, a := range rejected {
+			func() {
+				defer func() { recover() }()
+				if spec.Proto == 6 {
+					p.Setup6(a...)
+				} else {
+					p.Setup4(a...)
+				}
+			}()
+		}
+		for i, r := range spec.Runs {
+			if i >= len(res.Runs) || res.Runs[i].Out == "" {
+				continue
+			}
+			rb, _ := hex.DecodeString(r.Req)
+			pb, _ := hex.DecodeString(r.Resp)
+			again := ""
+			func() {
+				defer func() { recover() }()
+				if spec.Proto == 4 {
+					req, e1 := dhcpv4.FromBytes(rb)
+					resp, e2 := dhcpv4.FromBytes(pb)
+					if e1 == nil && e2 == nil {
+						if out, _ := h4(req, resp); out != nil {
+							again = hex.EncodeToString(out.ToBytes())
+						}
+					}
+				} else {
+					req, e1 := dhcpv6.FromBytes(rb)
+					resp, e2 := dhcpv6.FromBytes(pb)
+					if e1 == nil && e2 == nil {
+						if out, _ := h6(req, resp); out != nil {
+							again = hex.EncodeToString(out.ToBytes())
+						}
+					}
+				}
+			}()
+			if again != res.Runs[i].Out {
+				res.ReconfigChanged = fmt.Sprintf("request %d: before %s, after the rejected set-up calls %s", i, res.Runs[i].Out, again)
+			}
+			break
+		}
 	}
 }
